@@ -244,7 +244,7 @@ func (ps *PairShuffle) Verify(
 	grp := ps.grp
 	k := ps.k
 	if len(X) != k || len(Y) != k || len(Xbar) != k || len(Ybar) != k {
-		panic("mismatched vector lengths")
+		return errors.New("mismatched vector lengths")
 	}
 
 	// P step 1
